@@ -160,6 +160,68 @@ def main():
                         failures.append(f"{where}: raised {e!r}")
                 if len(samples) < 5:
                     samples.append({"dtype": d.name, "shape": list(shape), "representations": sorted(reps)[:6]})
+        # strided backing arrays (transposed / Fortran-ordered / reversed views): bytes follow the LOGICAL row-major order
+        for d in dtypes:
+            if d.bitwidth >= 8 and d not in (ir.DataType.FLOAT, ir.DataType.INT64):
+                continue
+            for shape in ((5, 3), (2, 3, 2)):
+                base = sample(d, shape, rnd)
+                for label, view in (("transposed", base.T), ("fortran", np.asfortranarray(base)), ("reversed", base[::-1])):
+                    where = f"{d.name} {label} view of shape {shape}"
+                    distinct.add((d.name, label, shape))
+                    try:
+                        t = ir.Tensor(view, dtype=d)
+                        ref = ir.Tensor(np.ascontiguousarray(view), dtype=d)
+                        check(bytes(t.tobytes()) == bytes(ref.tobytes()), f"{where}: tobytes() differs from the contiguous copy")
+                        bio = io.BytesIO()
+                        t.tofile(bio)
+                        check(bio.getvalue() == bytes(ref.tobytes()), f"{where}: tofile() differs from the contiguous copy")
+                        check(bits(t.numpy()) == bits(ref.numpy()), f"{where}: numpy() differs")
+                        check(len(bytes(t.tobytes())) == t.nbytes, f"{where}: len(tobytes()) != nbytes")
+                        p2 = ir.serde.serialize_tensor(t)
+                        check(bits(ir.serde.deserialize_tensor(p2).numpy()) == bits(ref.numpy()), f"{where}: proto round trip differs")
+                    except Exception as e:  # noqa: BLE001
+                        failures.append(f"{where}: raised {e!r}")
+        # large external tensors that are NOT the last thing in their file, written to every kind of destination
+        big = os.path.join(tmp, "big.bin")
+        sizes = [1200 * 1001, (1 << 20) + 1, 3 * (1 << 20) + 17]
+        blobs = [rnd.integers(0, 255, size=n, dtype=np.uint8) for n in sizes]
+        tail = b"TRAILING-BYTES-OF-THE-NEXT-TENSOR" * 40000
+        with open(big, "wb") as f:
+            offs = []
+            for b in blobs:
+                offs.append(f.tell())
+                f.write(b.tobytes())
+            f.write(tail)
+        for n, off, b in zip(sizes, offs, blobs):
+            where = f"external uint8[{n}] at offset {off} followed by more data"
+            distinct.add(("big-external", n))
+            try:
+                t = ir.ExternalTensor(location="big.bin", offset=off, length=n, dtype=ir.DataType.UINT8, shape=ir.Shape([n]), name="b", base_dir=tmp)
+                check(bytes(t.tobytes()) == b.tobytes(), f"{where}: tobytes() differs")
+                bio = io.BytesIO()
+                t.tofile(bio)
+                check(bio.getvalue() == b.tobytes(), f"{where}: tofile(BytesIO) wrote {len(bio.getvalue())} bytes, expected exactly the tensor's {n}")
+
+                class WriteOnly:
+                    def __init__(self):
+                        self.chunks = []
+
+                    def write(self, data):
+                        self.chunks.append(bytes(data))
+                        return len(data)
+                wo = WriteOnly()
+                t.tofile(wo)
+                check(b"".join(wo.chunks) == b.tobytes(), f"{where}: tofile(write-only stream) wrote {sum(map(len, wo.chunks))} bytes, expected {n}")
+                with open(os.path.join(tmp, "dst.bin"), "w+b") as f:
+                    f.write(b"abc")
+                    t.tofile(f)
+                    f.write(b"!")
+                    f.seek(0)
+                    check(f.read() == b"abc" + b.tobytes() + b"!", f"{where}: tofile(regular file) differs")
+                t.release()
+            except Exception as e:  # noqa: BLE001
+                failures.append(f"{where}: raised {e!r}")
     finally:
         import shutil
         shutil.rmtree(tmp, ignore_errors=True)
